@@ -37,7 +37,10 @@ LIBFLAGS_OVERRIDE = {"fuzz": ["-O1", "-fsanitize=fuzzer-no-link,address,undefine
 PROPS = {
     "C01": dict(tu="c01_half.cpp", san_scale=1.0 / 64, fuzz_s=0),
     "C02": dict(tu="c02_backends.cpp", variants=["fast"], prebuild="c02", link_extra=["-ldl"], fuzz_s=0),
-    "C03": dict(tu="c03_halftype.cpp", san_scale=1.0 / 64, fuzz_s=0),
+    "C03": dict(tu="c03_halftype.cpp", san_scale=1.0 / 64, fuzz_s=0,
+                extras=[dict(src="c03_halffunc_ls.cpp", flags=["-std=c++17", "-O1", "-DIMATH_HAVE_LARGE_STACK=1"], compilers=["g++", "clang++"], libs=["half.cpp"],
+                             runs={"quick": "24", "thorough": "600"},
+                             what="large-stack configuration (IMATH_ENABLE_LARGE_STACK): halfFunction<float|half|double> with the member-array table, placement-constructed in pre-filled storage; seeded domains x all 2^16 entries")]),
     "C04": dict(tu=["c04_p%d.cpp" % i for i in range(1, 11)], san_scale=0.1, fuzz_s=0,
                 extras=[dict(src="c04_constexpr23.cpp", flags=["-std=c++2b", "-O1"], compilers=["g++", "clang++"],
                              what="C++23 configuration: constant-evaluated (if consteval) accessors and operators vs named members and run-time evaluation")]),
@@ -472,13 +475,14 @@ def run_cpp(prop, tier, seed, only=None):
                 if not os.path.exists(exe):
                     for old in glob.glob(os.path.join(BUILD, "bin", "%s-extra-%s-*" % (prop, cc.replace("+", "x")))):
                         os.remove(old)
-                    compile_one([cc] + ex["flags"] + ["-I", cfg, "-I", os.path.join(REPO, "src", "Imath"), src, "-o", exe + ".tmp%d" % os.getpid()], exe + ".tmp%d" % os.getpid())
+                    libsrc = [os.path.join(REPO, "src", "Imath", l) for l in ex.get("libs", [])]
+                    compile_one([cc] + ex["flags"] + ["-I", cfg, "-I", os.path.join(REPO, "src", "Imath"), src] + libsrc + ["-o", exe + ".tmp%d" % os.getpid(), "-lm"], exe + ".tmp%d" % os.getpid())
                     os.replace(exe + ".tmp%d" % os.getpid(), exe)
             except BuildError as e:
                 print("ERROR build failed (not a verdict)")
                 log(str(e))
                 return 2
-            r = run([exe])
+            r = run([exe, str(seed)] + ([ex["runs"][tier]] if "runs" in ex else []))
             nchecks = 0
             for line in r.stdout.splitlines():
                 if line.startswith("CHECKS"):
